@@ -280,7 +280,11 @@ func (e *Engine) discharge(budget time.Duration, workers int) {
 		go func() {
 			defer wg.Done()
 			for r := range rch {
-				r.j.inst.Res = solve(r.script, budget)
+				if e.cfg.CrossCheck {
+					r.j.inst.Res = crossSolve(r.script, budget)
+				} else {
+					r.j.inst.Res = solve(r.script, budget)
+				}
 				if d := os.Getenv("GOVERIF_DUMP"); d != "" && (r.j.inst.Res.Verdict != "unsat" || os.Getenv("GOVERIF_DUMPALL") != "") {
 					os.WriteFile(filepath.Join(d, sanitize(r.j.o.Name)+".smt2"), []byte(r.script), 0644)
 				}
